@@ -1,7 +1,9 @@
 """C13 — per-property knobs of ./check (see DESIGN.md §6 C13, notes/C13.md)."""
 THEOREMS_TIED = ["Rustic.Props.C13.treeStreamerOnce_any_order", "Rustic.Props.C13.treeStreamerOnce_terminates",
                  "Rustic.Props.C13.every_written_pack_indexed", "Rustic.Props.C13.stored_set_schedule_independent",
-                 "Rustic.Props.C13.treeId_independent_of_index", "Rustic.Props.C13.pipeline_progress"]
+                 "Rustic.Props.C13.treeId_independent_of_index", "Rustic.Props.C13.pipeline_progress",
+                 "Rustic.Props.C13.network_progress", "Rustic.Props.C13.archiver_network_progress",
+                 "Rustic.Props.C13.snapshot_is_function_of_source"]
 
 TRUSTED = [
     "hand-written nondeterministic models lean/Rustic/Model/Streamer.lean (TreeStreamerOnce, channel line) and Model/Archive.lean part 2 (packer / file writer / indexer events)",
@@ -9,16 +11,16 @@ TRUSTED = [
     "crossbeam channels, pariter read-ahead / ordered parallel_map and rayon behave as documented (FIFO, ordered results); real thread interleavings are sampled by seeded delays, not enumerated",
 ]
 ASSUMPTIONS = [
-    "PARTIAL: the theorems quantify over all schedules of the MODELS; for the real threads the harness samples schedules (seeded latencies at backend calls, pack sizes from one blob per pack to the default); thread-pool sizes are not varied (global pools)",
-    "the channel-line progress theorem is about a line of bounded buffers with a consuming sink (the shape of Packer::new / Actor::new), not about crossbeam itself",
+    "PARTIAL: the theorems quantify over all schedules of the MODELS; for the real threads the harness samples schedules (seeded latencies at backend calls, pack sizes from one blob per pack to the default); rayon pool sizes 1..16 are varied (installed pool 2..16 with the caller inside; child process with a global pool of 1..16 and as many CPUs); the pariter stages follow only the CPU count, TreeStreamerOnce has 4 fixed loaders",
+    "the progress theorems are about a line (Packer::new / Actor::new) and a DAG network (Archiver::archive: workers fanning out to the data packer and the ordered output queue, main thread feeding the tree packer) of bounded buffers with consuming sinks, not about crossbeam/pariter themselves",
     "tree loads that fail end the stream with an error (outside the streamer model); the `chk` op covers that path on the real code",
 ]
 RULE = ("ops from harness/src/c13.rs, one splitmix64 PRNG (VERIF_SEED): `stream` = random DAG forests of 1-14 trees (0-3 sub-trees each, shared), 0-3 roots (duplicates), read latencies 0-3 ms by seed; "
         "`run` = a random source tree backed up 3 (thorough 5) times on fresh repositories: no delay/default packs, then seeded delays (<=1.5 ms per backend call) x data/tree pack sizes from {1 B, 200 B, 5 kB, 4 MB}; "
         "`hist` = backup A, parent-based backup B, forget A, prune (instant delete, repack) under the same variations; `chk` = check --read-data with a missing tree and 250 ms pack reads. "
-        "Non-trivial = a stream that yields >= 2 trees or any run/hist/chk op; distinct by hash of (op, observation).")
+        "Every run token / stream seed carries a rayon pool field (0 = default, n = ThreadPool::install of n workers, g<n> = child process with RAYON_NUM_THREADS=n pinned to n CPUs). Non-trivial = a stream that yields >= 2 trees or any run/hist/chk op; distinct by hash of (op, observation).")
 EXPLANATION = ("Theorems (all schedules of the models): TreeStreamerOnce yields exactly the reachable trees once each, ends iff nothing is outstanding (no deadlock, no early end), terminates within |reachable| steps; "
-               "every written pack is indexed at finalize; stored key set independent of flush points and delays; root tree id independent of the index contents; the channel line always has an enabled stage and a "
+               "every written pack is indexed at finalize; stored key set independent of flush points and delays; root tree id independent of the index contents; the channel line — and the archiver's whole channel network (any DAG of bounded buffers) — always has an enabled stage and a "
                "decreasing measure. Correspondence/oracles on the real code: yielded tree set = model's under seeded read latencies; repeated runs give identical tree id and referenced blob set, terminate "
                "(watchdog), leave storage = index, pass check --read-data and read back as the source.")
 
@@ -30,9 +32,21 @@ def nontrivial(op, obs):
     return obs.startswith("ok")
 
 
+def _install1(t):
+    # the case runs INSIDE a rayon pool of one worker (`ThreadPool::install`, pool field exactly "1"; never generated, corpus witness only)
+    if len(t) > 2 and t[1] == "stream":
+        f = t[2].split(".")
+        return len(f) > 1 and f[1] == "1"
+    if len(t) > 2 and t[1] in ("run", "hist"):
+        return any(len(r.split(".")) > 3 and r.split(".")[3] == "1" for r in t[-1].split(","))
+    return False
+
+
 def finding_key(op, impl, model):
     t = op.split(" ")
     k = "c13." + (t[1] if len(t) > 1 else "?")
+    if _install1(t):
+        k += ".install1"
     if impl.startswith(("panic", "oracle-fail", "err", "run")):
         parts = impl.split(" ")[0].split(":")
         k += ":" + ":".join(p for p in parts[:4] if not p.startswith("run"))[:80]
